@@ -71,7 +71,13 @@ func (j *judge) judgeSame() {
 		return
 	}
 	settings := func(wi int) plan.WOpts {
-		o := j.p.Writers[wi].Opts
+		ws, wo := j.p.Writers[wi], j.out.W[wi]
+		o := ws.Opts
+		for opi := range wo.Ops {
+			if opi < len(ws.Ops) && ws.Ops[opi].Op == "apply" && ws.Ops[opi].Opts != nil && wo.Ops[opi].Err.Nil {
+				o = *ws.Ops[opi].Opts
+			}
+		}
 		o.Conc, o.HYield = 0, 0
 		return o
 	}
